@@ -74,8 +74,8 @@ def run_harness(progfile, nprogs, timeout=600, extra=None, cap=3000):
     return results, "".join(raw)
 
 
-def run_driver(mode, path, timeout=1200):
-    p = subprocess.run([DRIVER, mode, path], capture_output=True, text=True, timeout=timeout)
+def run_driver(mode, path, timeout=1200, cap=3000):
+    p = subprocess.run([DRIVER, mode, path, "--cap", str(cap)], capture_output=True, text=True, timeout=timeout)
     return p.stdout, p.returncode, p.stderr
 
 
@@ -102,7 +102,7 @@ def compare(progfile, workdir, timeout=600):
             res["aborts"].append({"index": i, "prog": line, "crash": pr["crash"]})
             continue
         hl = strip_api(pr["lines"])
-        if hl and "badprog" in hl[-1]:
+        if hl and ("badprog" in hl[-1] or hl[-1].endswith(" capped")):
             res["badprog"] += 1
             continue
         ml = mprogs.get(i, {"lines": []})["lines"]
